@@ -1439,3 +1439,342 @@ func init() {
 		},
 	})
 }
+
+// ---------------------------------------------------------------- client loops: remaining shape clauses
+
+func init() {
+	register(&Rule{
+		Name: "client-loop-shape", Props: []string{"C02", "C07", "C11", "C12", "C18"}, Engine: "FDE", Floor: 14,
+		Doc: "glue of the client's loops that no other rule pins: the handshake sends the caller's SETTINGS (copied) and a connection WINDOW_UPDATE carrying the given credit, each attached to its frame and written; WINDOW_UPDATE frames are applied to the stream they name and, on stream 0, to the connection; a frame is routed to the connection-level switch exactly when its stream id is 0; dispatch resolves the request with nil when END_STREAM arrived without error and with the error otherwise; the read loop leaves on `stop || drained`; the request context learns its connection and stream before the request is queued; the body cut advances the pending body; each DATA frame carries END_STREAM iff it is the last of a final run; the release closure marks itself before unlocking; closeErr never yields nil; a GOAWAY with a last stream records it and marks the connection closing",
+		Run: ruleClientLoopShape,
+	})
+}
+
+func ruleClientLoopShape(p *Prog, r *Out) {
+	// ---- Handshake
+	if fd := p.decl("Handshake"); fd != nil {
+		r.fn("Handshake")
+		pos := p.pos(fd.Pos())
+		got := map[string]bool{}
+		writes := 0
+		prefaceOK := false
+		ast.Inspect(fd.Body, func(n ast.Node) bool {
+			switch x := n.(type) {
+			case *ast.CallExpr:
+				name := p.calleeOf(x)
+				switch {
+				case name == "(*Settings).CopyTo" && squash(p.text(x.Fun)) == "st.CopyTo" && len(x.Args) == 1:
+					got["copy:"+squash(p.text(x.Args[0]))] = true
+				case name == "(*FrameHeader).SetBody" && len(x.Args) == 1:
+					got["body:"+squash(p.text(x.Args[0]))] = true
+				case name == "(*WindowUpdate).SetIncrement" && len(x.Args) == 1 && p.ubKey(x.Args[0]) == "maxWin":
+					got["inc"] = true
+				case name == "(*FrameHeader).WriteTo":
+					writes++
+				case name == "(*bufio.Writer).Flush":
+					got["flush"] = true
+				}
+			case *ast.IfStmt:
+				if p.text(x.Cond) == "preface" {
+					inspectCalls(x.Body, func(c *ast.CallExpr) {
+						if p.calleeOf(c) == "WritePreface" {
+							prefaceOK = true
+						}
+					})
+				}
+			}
+			return true
+		})
+		r.check(got["copy:st2"] && got["body:st2"] && writes == 2, "handshake sends the caller's SETTINGS", pos, "st.CopyTo(st2); fr.SetBody(st2); fr.WriteTo(bw)", "the handshake no longer sends a copy of the SETTINGS it was given: the peer is told the library defaults while this endpoint enforces its configured values")
+		r.check(got["inc"] && got["body:wu"] && got["flush"], "handshake grants the given connection credit", pos, "wu.SetIncrement(maxWin); fr.SetBody(wu); WriteTo; Flush", "the handshake's connection WINDOW_UPDATE no longer carries the credit it was given (or is not written and flushed): the peer's connection window and this endpoint's accounting start apart")
+		r.check(prefaceOK, "client preface written when asked", pos, "if preface { WritePreface(bw) }", "the handshake no longer writes the client connection preface when it is asked to")
+	} else {
+		r.undecided("Handshake", "?", "no longer resolves")
+	}
+	// ---- WINDOW_UPDATE application and routing
+	rl, rn, dp := p.decl("(*Conn).readLoop"), p.decl("(*Conn).readNext"), p.decl("(*Conn).dispatch")
+	if rl == nil || rn == nil || dp == nil {
+		r.undecided("client loops", "?", "readLoop/readNext/dispatch no longer resolve")
+		return
+	}
+	r.fn("(*Conn).readLoop", "(*Conn).readNext", "(*Conn).dispatch", "(*Conn).writeRequest", "(*Conn).sendPending", "(*Conn).writeData", "(*Conn).closeErr")
+	streamWU, connWU := false, false
+	ast.Inspect(rl.Body, func(n ast.Node) bool {
+		if ifs, ok := n.(*ast.IfStmt); ok && squash(p.text(ifs.Cond)) == "fr.Type()==FrameWindowUpdate" {
+			inspectCalls(ifs.Body, func(c *ast.CallExpr) {
+				if p.calleeOf(c) == "(*Conn).addWindow" && squash(p.text(c.Args[0])) == "fr.Stream()" && strings.Contains(p.text(c.Args[1]), "Increment()") {
+					streamWU = true
+				}
+			})
+		}
+		return true
+	})
+	ast.Inspect(rn.Body, func(n ast.Node) bool {
+		if cc, ok := n.(*ast.CaseClause); ok && len(cc.List) == 1 && p.text(cc.List[0]) == "FrameWindowUpdate" {
+			inspectCalls(cc, func(c *ast.CallExpr) {
+				if p.calleeOf(c) == "(*Conn).addWindow" && strings.Contains(p.text(c.Args[1]), "Increment()") {
+					if v, ok := p.intConst(c.Args[0]); ok && v == 0 {
+						connWU = true
+					}
+				}
+			})
+		}
+		return true
+	})
+	r.check(streamWU, "stream WINDOW_UPDATE is applied to its stream", p.pos(rl.Pos()), "addWindow(fr.Stream(), increment)", "a stream-level WINDOW_UPDATE no longer reaches the pending body of the stream it names: the body waits for credit the server has already given")
+	r.check(connWU, "connection WINDOW_UPDATE is applied to the connection", p.pos(rn.Pos()), "addWindow(0, increment)", "a WINDOW_UPDATE on stream 0 no longer credits the connection send window")
+	// routing: connection-level switch exactly for stream 0
+	var routeIf *ast.IfStmt
+	ast.Inspect(rn.Body, func(n ast.Node) bool {
+		if ifs, ok := n.(*ast.IfStmt); ok && routeIf == nil && strings.Contains(p.text(ifs.Cond), "fr.Stream()") && len(ifs.Body.List) == 1 {
+			if b, ok := ifs.Body.List[0].(*ast.BranchStmt); ok && b.Tok == token.BREAK {
+				routeIf = ifs
+			}
+		}
+		return true
+	})
+	c := fdeCheck{p, r, p.pos(rn.Pos())}
+	if routeIf != nil {
+		c.expr("frames on a stream leave the connection-level reader", routeIf.Cond, fdeDomain{[]string{"fr.Stream()"}, [][]int64{{0, 1, 2, 3, 1 << 30}}}, nil, func(e fdeEnv) int64 { return b2i(e["fr.Stream()"] != 0) }, "fr.Stream() != 0", "SETTINGS, PING, GOAWAY and connection WINDOW_UPDATE live on stream 0 and everything else belongs to a request")
+	} else {
+		r.bad("frames on a stream leave the connection-level reader", c.pos, "readNext no longer hands frames with a stream id to its caller")
+	}
+	// GOAWAY with a last stream records it
+	recorded := false
+	ast.Inspect(rn.Body, func(n ast.Node) bool {
+		if cc, ok := n.(*ast.CaseClause); ok && len(cc.List) == 1 && p.text(cc.List[0]) == "FrameGoAway" {
+			ref, st := false, false
+			ast.Inspect(cc, func(m ast.Node) bool {
+				if as, ok := m.(*ast.AssignStmt); ok && len(as.Lhs) == 1 {
+					if squash(p.text(as.Lhs[0])) == "c.closeRef" && squash(p.text(as.Rhs[0])) == "ga.stream" {
+						ref = true
+					}
+					if squash(p.text(as.Lhs[0])) == "c.state" && p.text(as.Rhs[0]) == "connStateClosed" {
+						st = true
+					}
+				}
+				return true
+			})
+			recorded = ref && st
+		}
+		return true
+	})
+	r.check(recorded, "GOAWAY with a last stream is recorded", p.pos(rn.Pos()), "closeRef = ga.stream; state = connStateClosed", "receiving GOAWAY no longer records its last-stream-id and the closing state: the read loop never learns that it may leave once the promised streams are answered")
+	// read loop leaves on stop || drained
+	leave := false
+	ast.Inspect(rl.Body, func(n ast.Node) bool {
+		if ifs, ok := n.(*ast.IfStmt); ok {
+			if atoms, pure := pureJunction(ifs.Cond, false); pure && len(atoms) == 2 {
+				a0, a1 := squash(p.text(atoms[0].Cond)), squash(p.text(atoms[1].Cond))
+				if !atoms[0].Val && !atoms[1].Val && ((a0 == "stop" && a1 == "c.drained()") || (a1 == "stop" && a0 == "c.drained()")) {
+					leave = true
+				}
+			}
+		}
+		return true
+	})
+	r.check(leave, "read loop leaves on stop or drained", p.pos(rl.Pos()), "if stop || c.drained() { break }", "the read loop's exit test is no longer the plain disjunction of 'dispatch said stop' and 'every promised request is answered'")
+	// dispatch resolves
+	okNil, okErr := false, false
+	var endIf *ast.IfStmt
+	ast.Inspect(dp.Body, func(n ast.Node) bool {
+		ifs, ok := n.(*ast.IfStmt)
+		if !ok || squash(p.text(ifs.Cond)) != "err==nil" || ifs.Else == nil {
+			return true
+		}
+		for _, s := range ifs.Body.List {
+			if in, ok := s.(*ast.IfStmt); ok {
+				inspectCalls(in.Body, func(cl *ast.CallExpr) {
+					if p.calleeOf(cl) == "(*Conn).finish" && len(cl.Args) == 3 && p.text(cl.Args[2]) == "nil" {
+						okNil, endIf = true, in
+					}
+				})
+			}
+		}
+		inspectCalls(ifs.Else, func(cl *ast.CallExpr) {
+			if p.calleeOf(cl) == "(*Conn).finish" && len(cl.Args) == 3 && p.text(cl.Args[2]) == "err" {
+				okErr = true
+			}
+		})
+		return true
+	})
+	r.check(okNil && okErr, "dispatch resolves the request", p.pos(dp.Pos()), "err == nil: END_STREAM -> finish(r, id, nil); else finish(r, id, err)", "dispatch no longer resolves the waiting request with nil when its response ended and with the error when reading the frame failed: the caller waits until its timeout, or is told of success for a failed response")
+	if endIf != nil {
+		cd := fdeCheck{p, r, p.pos(dp.Pos())}
+		cd.expr("response ends on END_STREAM of DATA or HEADERS", endIf.Cond, fdeDomain{[]string{"fr.Type()", "fr.Flags().Has(FlagEndStream)"}, [][]int64{seq(0, 9), {0, 1}}}, nil, func(e fdeEnv) int64 {
+			t := e["fr.Type()"]
+			return b2i((t == 0 || t == 1) && e["fr.Flags().Has(FlagEndStream)"] != 0)
+		}, "(DATA || HEADERS) && END_STREAM", "the flag is defined for those two frame types only")
+	}
+	// writeRequest: ctx learns its connection and stream before it is queued
+	if wr := p.decl("(*Conn).writeRequest"); wr != nil {
+		idx := map[string]int{}
+		for i, s := range wr.Body.List {
+			if es, ok := s.(*ast.ExprStmt); ok {
+				t := squash(p.text(es.X))
+				switch {
+				case t == "ctx.conn.Store(c)":
+					idx["conn"] = i + 1
+				case t == "atomic.StoreUint32(&ctx.streamID,id)":
+					idx["id"] = i + 1
+				case t == "c.queueReq(id,ctx)":
+					idx["queue"] = i + 1
+				case t == "fr.SetBody(h)":
+					idx["body"] = i + 1
+				}
+			}
+		}
+		r.check(idx["conn"] > 0 && idx["id"] > 0 && idx["queue"] > idx["conn"] && idx["queue"] > idx["id"] && idx["body"] > 0, "request context is bound to its connection and stream before it is queued", p.pos(wr.Pos()), "ctx.conn.Store(c); streamID = id; queueReq(id, ctx)", "writeRequest no longer stores the connection and the stream id in the Ctx before it queues the request: the read loop's acquireFor refuses the response frames (they are dropped) or applies them to whatever the Ctx was bound to before")
+		// the release closure
+		relOK := false
+		ast.Inspect(wr.Body, func(n ast.Node) bool {
+			lit, ok := n.(*ast.FuncLit)
+			if !ok {
+				return true
+			}
+			for _, s := range lit.Body.List {
+				ifs, ok := s.(*ast.IfStmt)
+				if !ok || squash(p.text(ifs.Cond)) != "!released" || len(ifs.Body.List) != 2 {
+					continue
+				}
+				as, ok1 := ifs.Body.List[0].(*ast.AssignStmt)
+				es, ok2 := ifs.Body.List[1].(*ast.ExprStmt)
+				if ok1 && ok2 && p.text(as.Lhs[0]) == "released" && p.text(as.Rhs[0]) == "true" && squash(p.text(es.X)) == "ctx.release()" {
+					relOK = true
+				}
+			}
+			return true
+		})
+		r.check(relOK, "release closure runs once", p.pos(wr.Pos()), "if !released { released = true; ctx.release() }", "the release closure of writeRequest no longer marks itself before it unlocks: the deferred second call unlocks an unlocked mutex, which is a fatal error for the whole process")
+		// the body is handed to sendPending after the release
+		sendOK := false
+		for _, s := range wr.Body.List {
+			if ifs, ok := s.(*ast.IfStmt); ok && p.text(ifs.Cond) == "hasBody" && len(ifs.Body.List) == 2 {
+				es, ok1 := ifs.Body.List[0].(*ast.ExprStmt)
+				rs, ok2 := ifs.Body.List[1].(*ast.ReturnStmt)
+				if ok1 && ok2 && squash(p.text(es.X)) == "release()" && len(rs.Results) == 1 && squash(p.text(rs.Results[0])) == "c.sendPending(id)" {
+					sendOK = true
+				}
+			}
+		}
+		r.check(sendOK, "a request body starts going out right after its HEADERS", p.pos(wr.Pos()), "if hasBody { release(); return c.sendPending(id) }", "writeRequest no longer starts sending the body (after giving the Ctx back, which sendPending takes again): the body waits for an unrelated WINDOW_UPDATE to wake the write loop, or the Ctx is taken twice")
+		stream := false
+		ast.Inspect(wr.Body, func(n ast.Node) bool {
+			if as, ok := n.(*ast.AssignStmt); ok && len(as.Lhs) == 1 && squash(p.text(as.Lhs[0])) == "pb.stream" && squash(p.text(as.Rhs[0])) == "req.BodyStream()" {
+				stream = true
+			}
+			return true
+		})
+		r.check(stream, "a streamed body is registered as a stream", p.pos(wr.Pos()), "pb.stream = req.BodyStream()", "a streamed request body is no longer handed to the pending-body record: nothing of it is ever read or sent")
+	}
+	// sendPending: the cut advances the body
+	if sp := p.decl("(*Conn).sendPending"); sp != nil {
+		cut, adv := -1, -1
+		ast.Inspect(sp.Body, func(n ast.Node) bool {
+			b, ok := n.(*ast.BlockStmt)
+			if !ok {
+				return true
+			}
+			for i, s := range b.List {
+				as, ok := s.(*ast.AssignStmt)
+				if !ok || len(as.Lhs) != 1 {
+					continue
+				}
+				if p.text(as.Lhs[0]) == "body" && squash(p.text(as.Rhs[0])) == "pb.body[:n]" {
+					cut = i
+				}
+				if squash(p.text(as.Lhs[0])) == "pb.body" && squash(p.text(as.Rhs[0])) == "pb.body[n:]" && cut >= 0 && i > cut {
+					adv = i
+				}
+			}
+			return true
+		})
+		r.check(cut >= 0 && adv > cut, "the chunk cut advances the pending body", p.pos(sp.Pos()), "body := pb.body[:n]; pb.body = pb.body[n:]", "sendPending no longer advances the pending body past the chunk it cut: the same octets are sent again on the next round")
+	}
+	// writeData: END_STREAM on the last frame of a final run only
+	if wd := p.decl("(*Conn).writeData"); wd != nil {
+		cw := fdeCheck{p, r, p.pos(wd.Pos())}
+		var loop *ast.ForStmt
+		for _, s := range wd.Body.List {
+			if fs, ok := s.(*ast.ForStmt); ok {
+				loop = fs
+			}
+		}
+		if loop == nil {
+			r.bad("DATA frame loop", cw.pos, "writeData has no frame loop")
+		} else {
+			var es ast.Expr
+			inspectCalls(loop.Body, func(cl *ast.CallExpr) {
+				if p.calleeOf(cl) == "(*Data).SetEndStream" {
+					es = cl.Args[0]
+				}
+			})
+			dom := fdeDomain{[]string{"end", "i", "step", "len(body)"}, [][]int64{{0, 1}, {0, 2, 4}, {1, 2}, {2, 4, 6}}}
+			cw.expr("END_STREAM only on the last frame of a final run", es, dom, nil, func(e fdeEnv) int64 { return b2i(e["end"] != 0 && e["i"]+e["step"] == e["len(body)"]) }, "end && i+step == len(body)", "END_STREAM on an earlier frame truncates the request body at the server; not on the last one leaves the request open")
+			if loop.Cond != nil {
+				cw.expr("frame loop runs while no error and octets remain", loop.Cond, fdeDomain{[]string{"err==nil", "i", "len(body)"}, [][]int64{{0, 1}, seq(0, 3), seq(0, 3)}}, nil, func(e fdeEnv) int64 { return b2i(e["err==nil"] != 0 && e["i"] < e["len(body)"]) }, "err == nil && i < len(body)", "")
+			}
+			initOK, postOK := false, false
+			if as, ok := loop.Init.(*ast.AssignStmt); ok {
+				if v, okv := p.intConst(as.Rhs[0]); okv && v == 0 {
+					initOK = true
+				}
+			}
+			if as, ok := loop.Post.(*ast.AssignStmt); ok && as.Tok == token.ADD_ASSIGN && p.text(as.Lhs[0]) == "i" && p.text(as.Rhs[0]) == "step" {
+				postOK = true
+			}
+			r.check(initOK && postOK, "frame loop walks the body from 0 in steps", p.pos(loop.Pos()), "for i := 0; ...; i += step", "the DATA frame loop no longer starts at the first octet and advances by the frame size: octets are skipped or sent twice")
+		}
+		// empty final chunk still carries END_STREAM
+		emptyOK := false
+		for _, s := range wd.Body.List {
+			ifs, ok := s.(*ast.IfStmt)
+			if !ok {
+				continue
+			}
+			if cmp, ok := p.canonCmp(ifs.Cond, nil); ok && cmp.Op == "eq" && cmp.L.eq(Lin{T: map[string]int64{"len(body)": 1}}) {
+				guard, flag := false, false
+				for _, b := range ifs.Body.List {
+					if in, ok := b.(*ast.IfStmt); ok && squash(p.text(in.Cond)) == "!end" {
+						if res := firstReturn(in.Body); len(res) == 1 && p.text(res[0]) == "nil" {
+							guard = true
+						}
+					}
+					if es, ok := b.(*ast.ExprStmt); ok && squash(p.text(es.X)) == "data.SetEndStream(true)" {
+						flag = true
+					}
+				}
+				emptyOK = guard && flag
+			}
+		}
+		r.check(emptyOK, "an empty final chunk still ends the stream", p.pos(wd.Pos()), "if len(body) == 0 { if !end { return nil }; SetEndStream(true); write }", "writeData no longer sends an empty DATA frame with END_STREAM when the body ends without further octets (and nothing when it has not ended)")
+	}
+	// closeErr never yields nil
+	if ce := p.decl("(*Conn).closeErr"); ce != nil {
+		okc := false
+		if len(ce.Body.List) == 2 {
+			ifs, ok1 := ce.Body.List[0].(*ast.IfStmt)
+			last := retResults(ce.Body.List[1])
+			if ok1 && squash(p.text(ifs.Cond)) == "err!=nil" && len(last) == 1 && p.text(last[0]) == "ErrConnectionClosed" {
+				if res := firstReturn(ifs.Body); len(res) == 1 && p.text(res[0]) == "err" {
+					okc = true
+				}
+			}
+		}
+		r.check(okc, "closeErr never yields nil", p.pos(ce.Pos()), "if err := LastErr(); err != nil { return err }; return ErrConnectionClosed", "closeErr can return nil: a request that was never sent is resolved with a nil error, i.e. reported to its caller as a successful (empty) response")
+	}
+	if sl := p.decl("(*Conn).setLastErr"); sl != nil {
+		first := false
+		ast.Inspect(sl.Body, func(n ast.Node) bool {
+			if ifs, ok := n.(*ast.IfStmt); ok && squash(p.text(ifs.Cond)) == "c.lastErr==nil" {
+				for _, s := range ifs.Body.List {
+					if as, ok := s.(*ast.AssignStmt); ok && squash(p.text(as.Lhs[0])) == "c.lastErr" && p.text(as.Rhs[0]) == "err" {
+						first = true
+					}
+				}
+			}
+			return true
+		})
+		r.check(first, "the first error of the connection is the recorded one", p.pos(sl.Pos()), "if c.lastErr == nil { c.lastErr = err }", "setLastErr no longer keeps the first error: requests are resolved with a later, derived error (or none)")
+	}
+}
